@@ -1,1 +1,3 @@
+import GffProofs.Lemmas.SplitJoin
 import GffProofs.Props.C12
+import GffProofs.Props.C09
